@@ -1,6 +1,6 @@
 (* SimProofs.v — lemmas about model/Sim.v (C10). *)
 From Verif Require Import model.Base model.Sim.
-From Coq Require Import Lqa Sorted Permutation.
+From Coq Require Import Lqa Qminmax Sorted Permutation.
 Open Scope Q_scope.
 
 (* ---- arithmetic helpers --------------------------------------------------- *)
@@ -322,7 +322,7 @@ Proof.
   destruct (nth_error tbl (c_idx c)) as [per_seed|] eqn:E1; [|discriminate].
   destruct (nth_error per_seed seed) as [cv|] eqn:E2; [|discriminate].
   intro H. injection H as <-.
-  rewrite (nth_error_nth _ _ [] E1), (nth_error_nth _ _ [] E2).
+  rewrite (nth_error_nth _ _ [] E1). rewrite (nth_error_nth per_seed seed (@nil row) E2).
   destruct (c_maxres c) as [m|] eqn:Hm.
   - rewrite (filter_in_range c cv 1 m Hm). replace (S m - 1)%nat with m by lia.
     f_equal. rewrite <- (firstn_firstn cv m (length cv)) at 1. rewrite firstn_all. reflexivity.
@@ -333,13 +333,13 @@ Qed.
 Lemma filter_above cv : forall l p,
   filter (fun r => Nat.ltb p (res_level r)) (with_levels l cv) = with_levels (Nat.max l (S p)) (skipn (S p - l) cv).
 Proof.
-  induction cv as [|rw cv IH]; intros l p; simpl.
-  - rewrite skipn_nil. reflexivity.
-  - destruct (Nat.ltb p l) eqn:E.
-    + apply Nat.ltb_lt in E. replace (S p - l)%nat with O by lia. simpl.
+  induction cv as [|rw cv IH]; intros l p.
+  - simpl. rewrite skipn_nil. reflexivity.
+  - cbn [with_levels filter res_level]. destruct (Nat.ltb p l) eqn:E.
+    + apply Nat.ltb_lt in E. replace (S p - l)%nat with O by lia. cbn [skipn with_levels].
       replace (Nat.max l (S p)) with l by lia. f_equal.
-      rewrite IH. replace (S p - S l)%nat with O by lia. simpl. f_equal. lia.
-    + apply Nat.ltb_ge in E. replace (S p - l)%nat with (S (p - l)) by lia. simpl.
+      rewrite IH. replace (S p - S l)%nat with O by lia. cbn [skipn]. f_equal. lia.
+    + apply Nat.ltb_ge in E. replace (S p - l)%nat with (S (p - l)) by lia. cbn [skipn].
       rewrite IH. replace (S p - S l)%nat with (p - l)%nat by lia. f_equal. lia.
 Qed.
 
@@ -457,20 +457,18 @@ Definition raw_job (c : config) (seed : nat) (rp : option nat) : list result :=
   map (fun r => set_elapsed r (res_elapsed r - offset c seed k)) (with_levels (S k) (skipn k (limited c seed))).
 
 Lemma offset_of_spec cv : forall l p o,
-  offset_of p (with_levels l cv) = o \/ True ->
   fold_left (fun o r => if Nat.eqb (res_level r) p then res_elapsed r else o) (with_levels l cv) o =
   if Nat.leb l p then match nth_error cv (p - l) with Some rw => r_elapsed rw | None => o end else o.
 Proof.
-  induction cv as [|rw cv IH]; intros l p o _; simpl.
+  induction cv as [|rw cv IH]; intros l p o; cbn [with_levels fold_left res_level res_elapsed].
   - destruct (Nat.leb l p); [|reflexivity]. destruct (p - l)%nat; reflexivity.
-  - rewrite IH by (right; exact I). destruct (Nat.eqb l p) eqn:E.
-    + apply Nat.eqb_eq in E. subst. rewrite Nat.leb_refl, Nat.sub_diag. simpl.
-      replace (Nat.leb (S p) p) with false by (symmetry; apply Nat.leb_gt; lia). reflexivity.
+  - rewrite IH. destruct (Nat.eqb l p) eqn:E.
+    + apply Nat.eqb_eq in E. subst. rewrite Nat.leb_refl, Nat.sub_diag. cbn [nth_error].
+      destruct (Nat.leb (S p) p) eqn:E2; [apply Nat.leb_le in E2; lia | reflexivity].
     + apply Nat.eqb_neq in E. destruct (Nat.leb l p) eqn:E1.
-      * apply Nat.leb_le in E1. replace (Nat.leb (S l) p) with true by (symmetry; apply Nat.leb_le; lia).
+      * apply Nat.leb_le in E1. destruct (Nat.leb (S l) p) eqn:E2; [|apply Nat.leb_gt in E2; lia].
         replace (p - l)%nat with (S (p - S l)) by lia. reflexivity.
-      * apply Nat.leb_gt in E1. replace (Nat.leb (S l) p) with false by (symmetry; apply Nat.leb_gt; lia).
-        reflexivity.
+      * apply Nat.leb_gt in E1. destruct (Nat.leb (S l) p) eqn:E2; [apply Nat.leb_le in E2; lia | reflexivity].
 Qed.
 
 Lemma Forall2_map_req (f g : result -> result) l :
@@ -488,7 +486,7 @@ Proof.
     destruct rp as [p|]; [destruct (checkpointing S_)|].
     - rewrite filter_above. replace (Nat.max 1 (S p)) with (S p) by lia.
       replace (S p - 1)%nat with p by lia.
-      unfold offset_of. rewrite offset_of_spec by (right; exact I).
+      unfold offset_of. rewrite offset_of_spec.
       assert (Ho : (if Nat.leb 1 p then match nth_error (limited c seed) (p - 1) with
                                          | Some rw => r_elapsed rw | None => 0 end else 0)
                    = offset c seed p).
@@ -504,6 +502,22 @@ Proof.
 Qed.
 
 (* consequences, in table terms *)
+Lemma nth_error_skipn' {A} (l : list A) : forall k i, nth_error (skipn k l) i = nth_error l (k + i).
+Proof.
+  induction l as [|x l IH]; intros k i.
+  - rewrite skipn_nil. destruct i, k; reflexivity.
+  - destruct k; [reflexivity|]. simpl. apply IH.
+Qed.
+Lemma nth_error_firstn' {A} (l : list A) : forall m i x,
+  nth_error (firstn m l) i = Some x -> nth_error l i = Some x /\ (i < m)%nat.
+Proof.
+  induction l as [|y l IH]; intros m i x H.
+  - rewrite firstn_nil in H. destruct i; discriminate.
+  - destruct m; [destruct i; discriminate|]. destruct i as [|i]; simpl in H |- *.
+    + split; [exact H|lia].
+    + apply IH in H as [H1 H2]. split; [exact H1|lia].
+Qed.
+
 Lemma raw_job_nth c seed rp i r : nth_error (raw_job c seed rp) i = Some r ->
   exists rw, nth_error (curve_of c seed) (resume_point rp + i) = Some rw /\
              res_level r = S (resume_point rp + i) /\
@@ -515,17 +529,8 @@ Proof.
   destruct (nth_error (with_levels (S (resume_point rp)) (skipn (resume_point rp) (limited c seed))) i) as [x|] eqn:E;
     [|discriminate].
   simpl in H. injection H as <-. apply with_levels_nth in E as (rw & E & ->).
-  rewrite nth_error_skipn in E. unfold limited in E.
-  exists rw. simpl.
-  assert (Hlt : (resume_point rp + i < limit c (length (curve_of c seed)))%nat).
-  { destruct (Nat.lt_ge_cases (resume_point rp + i) (limit c (length (curve_of c seed)))) as [Hl|Hl]; [exact Hl|].
-    exfalso. assert (Hn : nth_error (firstn (limit c (length (curve_of c seed))) (curve_of c seed)) (resume_point rp + i) = None).
-    { apply nth_error_None. rewrite firstn_length. lia. }
-    congruence. }
-  rewrite nth_error_firstn in E.
-  destruct (Nat.ltb (resume_point rp + i) (limit c (length (curve_of c seed)))) eqn:E2;
-    [|apply Nat.ltb_ge in E2; lia].
-  repeat split; auto.
+  rewrite nth_error_skipn' in E. unfold limited in E. apply nth_error_firstn' in E as [E Hlt].
+  exists rw. cbn [res_level res_metrics res_elapsed set_elapsed]. repeat split; auto.
   unfold limit in Hlt. destruct (c_maxres c); [lia|exact I].
 Qed.
 
@@ -535,5 +540,982 @@ Proof.
   unfold raw_job. rewrite map_map. simpl. rewrite map_length, with_levels_length.
   rewrite <- with_levels_levels. reflexivity.
 Qed.
+
+(* ======================================================================== *)
+(*  3. every result in flight names the job run it came from                 *)
+(* ======================================================================== *)
+Definition tagged' (rs : list run_rec) (t k i : nat) (r : result) (ts : Q) : Prop :=
+  exists run, nth_error rs k = Some run /\ run_trial run = t /\
+              nth_error (run_results run) i = Some r /\
+              ts == run_te run + res_elapsed r + d_result S_.
+Definition tagged (st : state) := tagged' (runs st).
+
+Definition seed_ok (sd : list (nat * nat)) (run : run_rec) : Prop :=
+  match fixed_seed S_ with
+  | Some s => run_seed run = s
+  | None => lookup (run_trial run) sd = Some (run_seed run)
+  end.
+Definition run_ok (sd : list (nat * nat)) (run : run_rec) : Prop :=
+  job_results S_ tbl (run_cfg run) (run_seed run) (run_rp run) = Ok (run_results run) /\ seed_ok sd run.
+
+Definition Inv' (hp : list hentry) (nr : list (nat * list pend)) (rs : list run_rec) (sd : list (nat * nat)) : Prop :=
+  (forall h k i r, In h hp -> h_ev h = EvResult k i r -> tagged' rs (h_trial h) k i r (h_time h)) /\
+  (forall t l k i r ts, In (t, l) nr -> In (k, i, r, ts) l -> tagged' rs t k i r ts) /\
+  (forall k run, nth_error rs k = Some run -> run_ok sd run).
+Definition Inv (st : state) : Prop := Inv' (heap st) (nextres st) (runs st) (seeds st).
+
+Lemma tagged_app rs extra t k i r ts : tagged' rs t k i r ts -> tagged' (rs ++ extra) t k i r ts.
+Proof.
+  intros (run & H1 & H2). exists run. split; [|exact H2].
+  rewrite nth_error_app1; [exact H1|]. apply nth_error_Some. congruence.
+Qed.
+
+Lemma In_insert x h l : In x (insert h l) <-> x = h \/ In x l.
+Proof.
+  induction l as [|y l IH]; simpl.
+  - intuition congruence.
+  - destruct (key_ltb h y); simpl.
+    + intuition congruence.
+    + rewrite IH. intuition congruence.
+Qed.
+
+Lemma lookup_in {A} k (l : list (nat * A)) v : lookup k l = Some v -> In (k, v) l.
+Proof.
+  induction l as [|[k' v'] l IH]; simpl; [discriminate|].
+  destruct (Nat.eqb k k') eqn:E.
+  - apply Nat.eqb_eq in E. subst. intro H. injection H as ->. left. reflexivity.
+  - intro H. right. apply IH. exact H.
+Qed.
+Lemma lookup_app {A} k (l l' : list (nat * A)) :
+  lookup k (l ++ l') = match lookup k l with Some v => Some v | None => lookup k l' end.
+Proof.
+  induction l as [|[k' v'] l IH]; simpl; [reflexivity|]. destruct (Nat.eqb k k'); [reflexivity|exact IH].
+Qed.
+Lemma In_remove_key {A} k (l : list (nat * A)) x : In x (remove_key k l) -> In x l.
+Proof.
+  induction l as [|[k' v'] l IH]; simpl; [auto|]. destruct (Nat.eqb k k'); simpl.
+  - intro H. right. apply IH. exact H.
+  - intros [H|H]; [left; exact H | right; apply IH; exact H].
+Qed.
+Lemma In_set_key {A} k v (l : list (nat * A)) k' v' :
+  In (k', v') (set_key k v l) -> (k' = k /\ v' = v) \/ In (k', v') l.
+Proof.
+  induction l as [|[k0 v0] l IH]; simpl.
+  - intros [H|[]]. injection H as <- <-. left. auto.
+  - destruct (Nat.eqb k k0); simpl.
+    + intros [H|H]; [injection H as <- <-; left; auto | right; right; exact H].
+    + intros [H|H]; [right; left; exact H|]. apply IH in H as [H|H]; [left; exact H | right; right; exact H].
+Qed.
+
+(* transformers that do not touch heap / nextres / runs / seeds keep the invariant *)
+Lemma Inv_heap_sub st hp : Inv st -> (forall h, In h hp -> In h (heap st)) -> Inv (set_heap st hp).
+Proof.
+  intros (H1 & H2 & H3) Hs. split; [|split]; simpl; [|exact H2|exact H3].
+  intros h k i r Hh. apply H1. apply Hs. exact Hh.
+Qed.
+
+Lemma Inv_push st t ev time : Inv st -> (forall k i r, ev <> EvResult k i r) -> Inv (push st t ev time).
+Proof.
+  intros (H1 & H2 & H3) Hev. split; [|split]; simpl; [|exact H2|exact H3].
+  intros h k i r Hh He. apply In_insert in Hh as [->|Hh]; [|eapply H1; eauto].
+  simpl in He. exfalso. eapply Hev; eauto.
+Qed.
+
+(* the loop of _process_start_event *)
+Lemma push_results_fields rs : forall st t run idx te tf,
+  let st' := fst (push_results S_ st t run idx te tf rs) in
+  trials st' = trials st /\ nextres st' = nextres st /\ busy st' = busy st /\ seeds st' = seeds st /\
+  paused_at st' = paused_at st /\ runs st' = runs st.
+Proof.
+  induction rs as [|r rs IH]; intros; simpl; [repeat split|].
+  subst st'. simpl. destruct (IH (push st t (EvResult run idx r) (qadd (qadd te (res_elapsed r)) (d_result S_))) t run (S idx) te (qmax tf (qadd te (res_elapsed r))))
+    as (A & B & C & D & E & F). simpl in *. repeat split; assumption.
+Qed.
+
+Lemma push_results_heap rs : forall st t run idx te tf h,
+  In h (heap (fst (push_results S_ st t run idx te tf rs))) ->
+  In h (heap st) \/
+  exists j r, nth_error rs j = Some r /\ h_ev h = EvResult run (idx + j) r /\ h_trial h = t /\
+              h_time h == te + res_elapsed r + d_result S_.
+Proof.
+  induction rs as [|r rs IH]; intros st t run idx te tf h H; simpl in H; [left; exact H|].
+  apply IH in H as [H|(j & r' & Hj & He & Ht & Htime)].
+  - simpl in H. apply In_insert in H as [->|H]; [|left; exact H].
+    right. exists 0%nat, r. simpl. rewrite Nat.add_0_r. repeat split. rewrite !qadd_eq. reflexivity.
+  - right. exists (S j), r'. simpl. replace (idx + S j)%nat with (S idx + j)%nat by lia. repeat split; assumption.
+Qed.
+
+Lemma proc_start_inv st t te st' : Inv st -> proc_start st t te = Ok st' -> Inv st'.
+Proof.
+  intros (H1 & H2 & H3). unfold Sim.proc_start.
+  destruct (nth_error (trials st) t) as [tr|]; [|discriminate].
+  set (p := match fixed_seed S_ with
+            | Some s => (s, st)
+            | None => match lookup t (seeds st) with
+                      | Some s => (s, st)
+                      | None => (draw (length (runs st)), set_seeds st (seeds st ++ [(t, draw (length (runs st)))]))
+                      end
+            end).
+  assert (Hp : heap (snd p) = heap st /\ nextres (snd p) = nextres st /\ runs (snd p) = runs st /\
+               paused_at (snd p) = paused_at st /\
+               (exists extra, seeds (snd p) = seeds st ++ extra /\
+                              forall k, lookup k (seeds st) <> None -> lookup k (seeds st ++ extra) = lookup k (seeds st)) /\
+               match fixed_seed S_ with Some s => fst p = s | None => lookup t (seeds (snd p)) = Some (fst p) end).
+  { unfold p. destruct (fixed_seed S_) as [s|].
+    - simpl. repeat split. exists []. rewrite app_nil_r. auto.
+    - destruct (lookup t (seeds st)) as [s|] eqn:El; simpl.
+      + repeat split; auto. exists []. rewrite app_nil_r. auto.
+      + repeat split.
+        * eexists. split; [reflexivity|]. intros k Hk. rewrite lookup_app. destruct (lookup k (seeds st)); congruence.
+        * rewrite lookup_app, El. simpl. rewrite Nat.eqb_refl. reflexivity. }
+  destruct p as [seed st1]. simpl in Hp. destruct Hp as (Ph & Pn & Pr & Pp & (extra & Ps & Pl) & Pseed).
+  destruct (job_results S_ tbl (t_cfg tr) seed (lookup t (paused_at st1))) as [rs|e] eqn:Ej; [|discriminate].
+  pose proof (push_results_fields rs st1 t (length (runs st1)) 0%nat te te) as Hf.
+  pose proof (push_results_heap rs st1 t (length (runs st1)) 0%nat te te) as Hh.
+  destruct (push_results S_ st1 t (length (runs st1)) 0 te te rs) as [st2 tf]. simpl in Hf, Hh.
+  destruct Hf as (_ & Fn & _ & Fs & _ & Fr).
+  intro H. injection H as <-. unfold Inv, Inv'. simpl.
+  rewrite Fn, Fs, Fr, Pn, Pr, Ps.
+  set (newrun := mkRun t te (t_cfg tr) seed (lookup t (paused_at st1)) rs).
+  split; [|split].
+  - intros h k i r Hin He. apply In_insert in Hin as [->|Hin]; [simpl in He; discriminate|].
+    apply Hh in Hin as [Hin|(j & r' & Hj & He' & Ht & Htime)].
+    + rewrite Ph in Hin. apply tagged_app. eapply H1; eauto.
+    + rewrite He' in He. injection He as <- <- <-. simpl in Hj.
+      exists newrun. rewrite Pr. repeat split.
+      * rewrite nth_error_app2 by lia. rewrite Nat.sub_diag. reflexivity.
+      * simpl. symmetry. exact Ht.
+      * exact Hj.
+      * exact Htime.
+  - intros t' l k i r ts Hin Hl. apply tagged_app. eapply H2; eauto.
+  - intros k run Hk.
+    destruct (Nat.lt_ge_cases k (length (runs st))) as [Hlt|Hge].
+    + rewrite nth_error_app1 in Hk by exact Hlt. destruct (H3 k run Hk) as [Hj Hs]. split; [exact Hj|].
+      unfold seed_ok in *. destruct (fixed_seed S_); [exact Hs|]. rewrite Pl; [exact Hs|congruence].
+    + rewrite nth_error_app2 in Hk by exact Hge. destruct (k - length (runs st))%nat as [|n] eqn:En; simpl in Hk.
+      * injection Hk as <-. split; [exact Ej|]. unfold seed_ok. simpl.
+        destruct (fixed_seed S_); [exact Pseed|]. rewrite <- Ps. exact Pseed.
+      * destruct n; discriminate.
+Qed.
+
+Lemma proc_event_inv st rest h st' :
+  Inv st -> heap st = h :: rest -> proc_event (set_heap st rest) h = Ok st' -> Inv st'.
+Proof.
+  intros HI Hh. assert (HI' : Inv (set_heap st rest)).
+  { apply Inv_heap_sub; [exact HI|]. intros x Hx. rewrite Hh. right. exact Hx. }
+  unfold Sim.proc_event. destruct (h_ev h) as [|s| |run idx r] eqn:Ev.
+  - apply proc_start_inv. exact HI'.
+  - unfold proc_complete. simpl. destruct (nth_error (trials st) (h_trial h)); [|discriminate].
+    intro H. injection H as <-. exact HI'.
+  - intro H. injection H as <-. unfold proc_stop.
+    destruct HI' as (H1 & H2 & H3). split; [|split]; simpl; auto.
+    intros x k i r Hx. apply filter_In in Hx as [Hx _]. apply H1. exact Hx.
+  - unfold proc_result. simpl.
+    assert (HI2 : Inv' rest (set_key (h_trial h) (match lookup (h_trial h) (nextres st) with Some l => l | None => [] end
+                                                    ++ [(run, idx, r, h_time h)]) (nextres st)) (runs st) (seeds st)).
+    { destruct HI' as (H1 & H2 & H3). simpl in *. split; [|split]; auto.
+      intros t l k i r' ts Hin Hl. apply In_set_key in Hin as [[-> ->]|Hin]; [|eapply H2; eauto].
+      apply in_app_or in Hl as [Hl|[Hl|[]]].
+      - destruct (lookup (h_trial h) (nextres st)) as [l0|] eqn:El; [|contradiction].
+        apply lookup_in in El. eapply H2; eauto.
+      - injection Hl as <- <- <- <-. destruct HI as (G1 & _). apply (G1 h run idx r); [rewrite Hh; left; reflexivity|exact Ev]. }
+    destruct (nth_error (trials st) (h_trial h)) as [tr|]; [|discriminate].
+    destruct (t_isres tr); intro H; injection H as <-; exact HI2.
+Qed.
+
+Lemma process_inv fuel : forall st st', Inv st -> process fuel st = Ok st' -> Inv st'.
+Proof.
+  induction fuel as [|f IH]; intros st st' HI H; simpl in H; [discriminate|].
+  destruct (heap st) as [|h rest] eqn:Hh.
+  - injection H as <-. exact HI.
+  - destruct (Qleb (h_time h) (clock st)).
+    + destruct (proc_event (set_heap st rest) h) as [st1|e] eqn:E; [|discriminate].
+      eapply IH; [|exact H]. eapply proc_event_inv; eauto.
+    + injection H as <-. exact HI.
+Qed.
+
+Lemma advance_inv st d st' : Inv st -> advance st d = Ok st' -> Inv st'.
+Proof. intros HI H. apply advance_ok in H as (_ & _ & ->). exact HI. Qed.
+
+Lemma schedule_inv st t dt st' : Inv st -> schedule st t dt = Ok st' -> Inv st'.
+Proof.
+  unfold Sim.schedule, bind. intro HI. destruct (advance st dt) as [st1|] eqn:E1; [|discriminate].
+  destruct (process_now st1) as [st2|] eqn:E2; [|discriminate].
+  intro H. injection H as <-. apply Inv_push; [|discriminate].
+  eapply process_inv; [|exact E2]. eapply advance_inv; eauto.
+Qed.
+
+Lemma stop_or_pause_inv st t s dt st' : Inv st -> stop_or_pause st t s dt = Ok st' -> Inv st'.
+Proof.
+  unfold Sim.stop_or_pause, bind. intro HI. destruct (advance st dt) as [st1|] eqn:E1; [|discriminate].
+  match goal with |- match process_now ?x with _ => _ end = _ -> _ => set (st2 := x) end.
+  assert (H2 : Inv st2).
+  { unfold st2, advance_to. apply (Inv_push st1 t EvStop); [eapply advance_inv; eauto|discriminate]. }
+  destruct (process_now st2) as [st3|] eqn:E3; [|discriminate].
+  match goal with |- match process_now ?x with _ => _ end = _ -> _ => set (st4 := x) end.
+  assert (H4 : Inv st4).
+  { unfold st4, advance_to. apply (Inv_push st3 t (EvComplete s)); [eapply process_inv; eauto|discriminate]. }
+  destruct (process_now st4) as [st5|] eqn:E5; [|discriminate].
+  intro H. injection H as <-. apply (process_inv _ _ _ H4) in E5. destruct E5 as (G1 & G2 & G3).
+  split; [|split]; simpl; auto. intros t' l k i r ts Hin. apply In_remove_key in Hin. eapply G2; eauto.
+Qed.
+
+Lemma Inv_set_status st t s : Inv st -> Inv (set_status st t s).
+Proof. unfold set_status. destruct (nth_error (trials st) t); auto. Qed.
+Lemma Inv_set_config st t c : Inv st -> Inv (set_config st t c).
+Proof. unfold set_config. destruct (nth_error (trials st) t); auto. Qed.
+
+Lemma collect_in ids : forall nr acc t p,
+  In (t, p) (fst (collect ids nr acc)) -> In (t, p) acc \/ exists l, In (t, l) nr /\ In p l.
+Proof.
+  induction ids as [|x ids IH]; intros nr acc t p H; simpl in H; [left; exact H|].
+  destruct (lookup x nr) as [l|] eqn:El.
+  - apply IH in H as [H|(l' & H1 & H2)].
+    + apply in_app_or in H as [H|H]; [left; exact H|]. apply in_map_iff in H as (p' & Hp & Hin).
+      injection Hp as <- <-. right. exists l. split; [apply lookup_in; exact El|exact Hin].
+    + right. exists l'. split; [eapply In_remove_key; eauto|exact H2].
+  - apply IH in H. exact H.
+Qed.
+
+(* a fetch hands out only results that name their run *)
+Lemma step_inv st o st' out : Inv st -> step st o = Ok (st', out) ->
+  Inv st' /\
+  match out with
+  | OutFetch rs _ => forall t k i r ts, In (t, (k, i, r, ts)) rs -> tagged st' t k i r ts
+  | _ => True
+  end.
+Proof.
+  intro HI. destruct o as [c dt|t newc dt|t lvl dt|t dt|ids dt| |]; cbn [Sim.step]; unfold bind.
+  - destruct (Sim.schedule S_ tbl draw st (length (trials st)) dt) as [st1|] eqn:E; [|discriminate].
+    intro H. injection H as <- <-. split; [|exact I]. eapply schedule_inv in E; eauto.
+  - destruct (nth_error (trials st) t) as [tr|]; [|discriminate].
+    destruct (t_status tr) as [[]|]; try discriminate.
+    destruct (Sim.schedule S_ tbl draw _ t dt) as [st1|] eqn:E; [|discriminate].
+    intro H. injection H as <- <-. split; [|exact I]. apply Inv_set_status.
+    eapply schedule_inv; [|exact E]. destruct newc; [apply Inv_set_config|]; exact HI.
+  - destruct (negb (Nat.ltb t (length (trials st)))); [discriminate|].
+    destruct (Sim.stop_or_pause S_ tbl draw _ t Paused dt) as [st1|] eqn:E; [|discriminate].
+    intro H. injection H as <- <-. split; [|exact I].
+    apply stop_or_pause_inv in E; [|apply Inv_set_status; exact HI]. destruct lvl; exact E.
+  - destruct (Sim.stop_or_pause S_ tbl draw st t Stopped dt) as [st1|] eqn:E; [|discriminate].
+    intro H. injection H as <- <-. split; [|exact I]. eapply stop_or_pause_inv; eauto.
+  - destruct (advance st dt) as [st1|] eqn:E1; [|discriminate].
+    destruct (Sim.process_now S_ tbl draw st1) as [st2|] eqn:E2; [|discriminate].
+    pose proof (collect_in ids (nextres st2) []) as Hc.
+    destruct (collect ids (nextres st2) []) as [rs nr]. simpl in Hc.
+    destruct (statuses (trials (set_nextres st2 [])) ids); [|discriminate].
+    intro H. injection H as <- <-.
+    assert (H2 : Inv st2). { eapply process_inv; [|exact E2]. eapply advance_inv; eauto. }
+    destruct H2 as (G1 & G2 & G3). split.
+    + split; [|split]; simpl; auto. intros t l k i r ts [].
+    + intros t k i r ts Hin. apply Hc in Hin as [[]|(l & Hl & Hp)]. unfold tagged. simpl. eapply G2; eauto.
+  - destruct (Sim.process_now S_ tbl draw st) as [st1|] eqn:E; [|discriminate].
+    intro H. injection H as <- <-. split; [|exact I]. eapply process_inv; eauto.
+  - destruct (advance st (sleep_time S_)) as [st1|] eqn:E; [|discriminate].
+    intro H. injection H as <- <-. split; [|exact I]. eapply advance_inv; eauto.
+Qed.
+
+Lemma Inv_init : Inv init_state.
+Proof.
+  split; [|split]; simpl.
+  - intros h k i r [].
+  - intros t l k i r ts [].
+  - intros k run H. destruct k; discriminate.
+Qed.
+
+(* states reachable by successful calls *)
+Inductive reach (st0 : state) : state -> Prop :=
+| reach_refl : reach st0 st0
+| reach_step st o st' out : reach st0 st -> step st o = Ok (st', out) -> reach st0 st'.
+
+Lemma reach_trans a b c : reach a b -> reach b c -> reach a c.
+Proof. intros Hab Hbc. induction Hbc; [exact Hab|]. econstructor; eauto. Qed.
+
+Lemma run_ops_reach : forall ops st pre st1 o1 rest,
+  run_ops st ops = pre ++ Ok (st1, o1) :: rest ->
+  exists st0 o, reach st st0 /\ step st0 o = Ok (st1, o1).
+Proof.
+  induction ops as [|o ops IH]; intros st pre st1 o1 rest H; simpl in H.
+  - destruct pre; discriminate.
+  - destruct (step st o) as [[s out]|e] eqn:E.
+    + destruct pre as [|x pre]; simpl in H.
+      * injection H as -> -> _. exists st, o. split; [constructor|exact E].
+      * injection H as _ H. apply IH in H as (st0 & o' & Hr & Hs). exists st0, o'. split; [|exact Hs].
+        eapply reach_trans; [|exact Hr]. econstructor; [constructor|exact E].
+    + destruct pre as [|x pre]; simpl in H; [discriminate|]. injection H as _ H. destruct pre; discriminate.
+Qed.
+
+Lemma reach_inv st0 st : Inv st0 -> reach st0 st -> Inv st.
+Proof. intros H0 Hr. induction Hr; [exact H0|]. eapply step_inv in IHHr; eauto. destruct IHHr; assumption. Qed.
+
+(* ======================================================================== *)
+(*  4. delivered results: values, levels, seed, time stamp                   *)
+(* ======================================================================== *)
+Lemma Forall2_nth {A B} (P : A -> B -> Prop) l l' : Forall2 P l l' ->
+  forall i a, nth_error l i = Some a -> exists b, nth_error l' i = Some b /\ P a b.
+Proof.
+  induction 1 as [|x y l l' Hxy HF IH]; intros i a Hi; [destruct i; discriminate|].
+  destruct i as [|i]; simpl in Hi.
+  - injection Hi as <-. exists y. split; [reflexivity|exact Hxy].
+  - apply IH in Hi. exact Hi.
+Qed.
+
+(* the facts a delivered result (t, run tag k, index i, result r, time stamp ts) satisfies *)
+Definition delivered_ok (st : state) (t k i : nat) (r : result) (ts : Q) : Prop :=
+  exists run,
+    nth_error (runs st) k = Some run /\ run_trial run = t /\ nth_error (run_results run) i = Some r /\
+    let c := run_cfg run in let s := run_seed run in let p := resume_point (run_rp run) in
+    (* values: the table row of that configuration, seed and level *)
+    (exists rw, nth_error (curve_of c s) (p + i) = Some rw /\
+                res_level r = S (p + i) /\ res_metrics r = r_metrics rw /\
+                match c_maxres c with Some m => (res_level r <= m)%nat | None => True end) /\
+    (* levels of the run: consecutive, from resume point + 1 *)
+    map res_level (run_results run) = seq (S p) (length (run_results run)) /\
+    (* one seed per trial *)
+    match fixed_seed S_ with Some s0 => s = s0 | None => lookup t (seeds st) = Some s end /\
+    (* time stamp: start of that run + elapsed since the resume point (repaired) + delay *)
+    ts == run_te run + res_elapsed r + d_result S_ /\
+    repaired None (raw_job c s (run_rp run)) (run_results run) /\
+    (spaced (eps S_) (raw_job c s (run_rp run)) ->
+     exists rw, nth_error (curve_of c s) (p + i) = Some rw /\
+                res_elapsed r == r_elapsed rw - offset c s p).
+
+Lemma tagged_delivered st t k i r ts : Inv st -> tagged st t k i r ts -> delivered_ok st t k i r ts.
+Proof.
+  intros (_ & _ & H3) (run & Hk & Ht & Hi & Hts).
+  destruct (H3 k run Hk) as [Hj Hs]. apply job_results_spec in Hj as [Hne Hrep].
+  exists run. split; [exact Hk|]. split; [exact Ht|]. split; [exact Hi|]. cbv zeta.
+  destruct (repaired_nth _ _ _ Hrep i r Hi) as (raw & Hraw & Hl & Hm & _).
+  pose proof (raw_job_nth _ _ _ _ _ Hraw) as (rw & Hrw & Hlev & Hmax & Hmet & Hel).
+  destruct (repaired_fields _ _ _ Hrep) as (Hlv & _ & Hlen).
+  split; [|split; [|split; [|split; [|split]]]].
+  - exists rw. repeat split; try congruence. rewrite Hl. exact Hmax.
+  - rewrite Hlv, raw_job_levels, Hlen. reflexivity.
+  - unfold seed_ok in Hs. rewrite Ht in Hs. exact Hs.
+  - exact Hts.
+  - exact Hrep.
+  - intro Hsp. exists rw. split; [exact Hrw|].
+    pose proof (repaired_faithful _ _ _ Hrep Hsp) as HF.
+    destruct (Forall2_nth _ _ _ HF i r Hi) as (raw' & Hraw' & (_ & _ & He)).
+    rewrite Hraw in Hraw'. injection Hraw' as <-. rewrite He, Hel. reflexivity.
+Qed.
+
+Lemma fetch_delivered ops pre st' rs sts post :
+  run_ops init_state ops = pre ++ Ok (st', OutFetch rs sts) :: post ->
+  forall t k i r ts, In (t, (k, i, r, ts)) rs -> delivered_ok st' t k i r ts.
+Proof.
+  intros H t k i r ts Hin. apply run_ops_reach in H as (st0 & o & Hr & Hs).
+  pose proof (reach_inv _ _ Inv_init Hr) as HI.
+  destruct (step_inv _ _ _ _ HI Hs) as [HI' Hd]. apply tagged_delivered; [exact HI'|]. apply Hd. exact Hin.
+Qed.
+
+(* the start time of a run: a start / resume call at simulated time c puts a start event at
+   c + delay_start, and the run created when that event is processed starts at the event's time *)
+Lemma schedule_start_event st t dt st' : schedule st t dt = Ok st' ->
+  exists h, In h (heap st') /\ h_ev h = EvStart /\ h_trial h = t /\ h_time h == clock st' + d_start S_.
+Proof.
+  unfold Sim.schedule, bind. destruct (advance st dt) as [st1|]; [|discriminate].
+  destruct (process_now st1) as [st2|]; [|discriminate].
+  intro H. injection H as <-. eexists. split; [apply In_insert; left; reflexivity|].
+  simpl. repeat split. apply qadd_eq.
+Qed.
+
+Lemma proc_start_run st t te st' : proc_start st t te = Ok st' ->
+  exists run tr, runs st' = runs st ++ [run] /\ nth_error (trials st) t = Some tr /\
+                 run_trial run = t /\ run_te run = te /\ run_cfg run = t_cfg tr /\
+                 run_rp run = lookup t (paused_at st).
+Proof.
+  unfold Sim.proc_start. destruct (nth_error (trials st) t) as [tr|]; [|discriminate].
+  set (p := match fixed_seed S_ with
+            | Some s => (s, st)
+            | None => match lookup t (seeds st) with
+                      | Some s => (s, st)
+                      | None => (draw (length (runs st)), set_seeds st (seeds st ++ [(t, draw (length (runs st)))]))
+                      end
+            end).
+  assert (Hp : runs (snd p) = runs st /\ paused_at (snd p) = paused_at st).
+  { unfold p. destruct (fixed_seed S_); [auto|]. destruct (lookup t (seeds st)); auto. }
+  destruct p as [seed st1]. simpl in Hp. destruct Hp as [Pr Pp].
+  destruct (job_results S_ tbl (t_cfg tr) seed (lookup t (paused_at st1))) as [rs|e]; [|discriminate].
+  pose proof (push_results_fields rs st1 t (length (runs st1)) 0%nat te te) as Hf.
+  destruct (push_results S_ st1 t (length (runs st1)) 0 te te rs) as [st2 tf]. simpl in Hf.
+  destruct Hf as (_ & _ & _ & _ & _ & Fr).
+  intro H. injection H as <-. simpl. rewrite Fr, Pr, Pp.
+  eexists. exists tr. split; [reflexivity|]. repeat split.
+Qed.
+
+(* ======================================================================== *)
+(*  5. the event heap as a sorted list                                       *)
+(* ======================================================================== *)
+(* Python tuple order on the keys (time, insertion counter) *)
+Definition key_lt (a b : hentry) : Prop :=
+  h_time a < h_time b \/ (h_time a == h_time b /\ (h_cnt a < h_cnt b)%nat).
+
+Lemma key_ltb_lt a b : key_ltb a b = true <-> key_lt a b.
+Proof.
+  unfold key_ltb, key_lt. rewrite orb_true_iff, andb_true_iff, Qltb_lt, Nat.ltb_lt.
+  unfold Qeqb. rewrite Qeq_bool_iff. reflexivity.
+Qed.
+
+Lemma key_lt_trans a b c : key_lt a b -> key_lt b c -> key_lt a c.
+Proof.
+  unfold key_lt. intros [H1|[H1 H1']] [H2|[H2 H2']].
+  - left. lra.
+  - left. lra.
+  - left. lra.
+  - right. split; [lra|lia].
+Qed.
+Lemma key_lt_irrefl a : ~ key_lt a a.
+Proof. unfold key_lt. intros [H|[_ H]]; [lra|lia]. Qed.
+Lemma key_lt_total a b : h_cnt a <> h_cnt b -> key_lt a b \/ key_lt b a.
+Proof.
+  intro Hc. unfold key_lt. destruct (Q_dec (h_time a) (h_time b)) as [[H|H]|H].
+  - left. left. exact H.
+  - right. left. exact H.
+  - destruct (Nat.lt_ge_cases (h_cnt a) (h_cnt b)) as [Hl|Hl].
+    + left. right. split; [exact H|exact Hl].
+    + right. right. split; [symmetry; exact H|lia].
+Qed.
+
+Definition hsorted (l : list hentry) : Prop := StronglySorted key_lt l.
+
+Lemma insert_perm x l : Permutation (insert x l) (x :: l).
+Proof.
+  induction l as [|y l IH]; simpl; [reflexivity|]. destruct (key_ltb x y); [reflexivity|].
+  rewrite IH. apply perm_swap.
+Qed.
+
+Lemma insert_sorted x l : hsorted l -> (forall y, In y l -> h_cnt y <> h_cnt x) -> hsorted (insert x l).
+Proof.
+  unfold hsorted. induction l as [|y l IH]; intros Hs Hc; simpl.
+  - constructor; constructor.
+  - inversion Hs as [|y' l' Hs' Hall]; subst. destruct (key_ltb x y) eqn:E.
+    + apply key_ltb_lt in E. constructor; [exact Hs|]. constructor; [exact E|].
+      eapply Forall_impl; [|exact Hall]. intros z Hz. eapply key_lt_trans; eauto.
+    + assert (Hyx : key_lt y x).
+      { destruct (key_lt_total y x) as [H|H]; [apply Hc; left; reflexivity|exact H|].
+        apply key_ltb_lt in H. congruence. }
+      constructor.
+      * apply IH; [exact Hs'|]. intros z Hz. apply Hc. right. exact Hz.
+      * apply Forall_forall. intros z Hz. apply In_insert in Hz as [->|Hz]; [exact Hyx|].
+        rewrite Forall_forall in Hall. apply Hall. exact Hz.
+Qed.
+
+Lemma filter_sorted f l : hsorted l -> hsorted (filter f l).
+Proof.
+  unfold hsorted. induction 1 as [|y l Hs IH Hall]; simpl; [constructor|].
+  destruct (f y); [|exact IH]. constructor; [exact IH|].
+  apply Forall_forall. intros z Hz. apply filter_In in Hz as [Hz _].
+  rewrite Forall_forall in Hall. apply Hall. exact Hz.
+Qed.
+
+(* the head of the list is the event every priority queue must pop next *)
+Lemma sorted_head_min h rest : hsorted (h :: rest) -> forall y, In y rest -> key_lt h y.
+Proof. intros Hs y Hy. inversion Hs as [|a b Hs' Hall]; subst. rewrite Forall_forall in Hall. apply Hall. exact Hy. Qed.
+
+(* the key order is strict and total on distinct counters, so a set of events has exactly one
+   sorted arrangement: whatever order heapq pops them in, it is the order of this list *)
+Lemma sorted_unique l1 : forall l2, hsorted l1 -> hsorted l2 -> Permutation l1 l2 -> l1 = l2.
+Proof.
+  unfold hsorted. induction l1 as [|a l1 IH]; intros l2 H1 H2 HP.
+  - apply Permutation_nil in HP. subst. reflexivity.
+  - destruct l2 as [|b l2]; [apply Permutation_sym, Permutation_nil in HP; discriminate|].
+    inversion H1 as [|a' l1' H1' Hall1]; subst. inversion H2 as [|b' l2' H2' Hall2]; subst.
+    rewrite Forall_forall in Hall1, Hall2.
+    assert (Hab : a = b).
+    { assert (Ha : In a (b :: l2)) by (eapply Permutation_in; [exact HP|left; reflexivity]).
+      assert (Hb : In b (a :: l1)) by (eapply Permutation_in; [apply Permutation_sym; exact HP|left; reflexivity]).
+      destruct Ha as [Ha|Ha]; [congruence|]. destruct Hb as [Hb|Hb]; [exact Hb|].
+      exfalso. apply (key_lt_irrefl a). eapply key_lt_trans; [apply Hall1; exact Hb | apply Hall2; exact Ha]. }
+    subst b. f_equal. apply IH; [exact H1'|exact H2'|]. eapply Permutation_cons_inv. exact HP.
+Qed.
+
+(* invariant of every reachable state: the heap is sorted by (time, insertion counter) and all
+   counters in it are below events_added *)
+Definition HInv (st : state) : Prop :=
+  hsorted (heap st) /\ forall h, In h (heap st) -> (h_cnt h < added st)%nat.
+
+Lemma HInv_push st t ev time : HInv st -> HInv (push st t ev time).
+Proof.
+  intros [Hs Hc]. split; simpl.
+  - apply insert_sorted; [exact Hs|]. intros y Hy. apply Hc in Hy. simpl. lia.
+  - intros h Hh. apply In_insert in Hh as [->|Hh]; [simpl; lia|]. apply Hc in Hh. lia.
+Qed.
+
+Lemma HInv_push_results rs : forall st t run idx te tf,
+  HInv st -> HInv (fst (push_results S_ st t run idx te tf rs)).
+Proof.
+  induction rs as [|r rs IH]; intros; simpl; [assumption|]. apply IH. apply HInv_push. assumption.
+Qed.
+
+Lemma HInv_same st st' : heap st' = heap st -> added st' = added st -> HInv st -> HInv st'.
+Proof. unfold HInv. intros -> ->. auto. Qed.
+
+Lemma proc_start_hinv st t te st' : HInv st -> proc_start st t te = Ok st' -> HInv st'.
+Proof.
+  intro HI. unfold Sim.proc_start. destruct (nth_error (trials st) t) as [tr|]; [|discriminate].
+  set (p := match fixed_seed S_ with
+            | Some s => (s, st)
+            | None => match lookup t (seeds st) with
+                      | Some s => (s, st)
+                      | None => (draw (length (runs st)), set_seeds st (seeds st ++ [(t, draw (length (runs st)))]))
+                      end
+            end).
+  assert (Hp : HInv (snd p)).
+  { unfold p. destruct (fixed_seed S_); [exact HI|]. destruct (lookup t (seeds st)); exact HI. }
+  destruct p as [seed st1]. simpl in Hp.
+  destruct (job_results S_ tbl (t_cfg tr) seed (lookup t (paused_at st1))) as [rs|e]; [|discriminate].
+  pose proof (HInv_push_results rs st1 t (length (runs st1)) 0%nat te te Hp) as H2.
+  destruct (push_results S_ st1 t (length (runs st1)) 0 te te rs) as [st2 tf]. simpl in H2.
+  intro H. injection H as <-.
+  apply (HInv_push st2 t (EvComplete Completed) (qadd tf (d_complete S_))) in H2. exact H2.
+Qed.
+
+Lemma proc_event_hinv st rest h st' :
+  HInv st -> heap st = h :: rest -> proc_event (set_heap st rest) h = Ok st' -> HInv st'.
+Proof.
+  intros [Hs Hc] Hh. assert (HI' : HInv (set_heap st rest)).
+  { rewrite Hh in Hs, Hc. split; simpl.
+    - inversion Hs; assumption.
+    - intros x Hx. apply Hc. right. exact Hx. }
+  unfold Sim.proc_event. destruct (h_ev h) as [|s| |run idx r].
+  - apply proc_start_hinv. exact HI'.
+  - unfold proc_complete. simpl. destruct (nth_error (trials st) (h_trial h)); [|discriminate].
+    intro H. injection H as <-. exact HI'.
+  - intro H. injection H as <-. destruct HI' as [Hs' Hc']. split; simpl.
+    + apply filter_sorted. exact Hs'.
+    + intros x Hx. apply filter_In in Hx as [Hx _]. apply Hc'. exact Hx.
+  - unfold proc_result. simpl. destruct (nth_error (trials st) (h_trial h)) as [tr|]; [|discriminate].
+    destruct (t_isres tr); intro H; injection H as <-; exact HI'.
+Qed.
+
+Lemma process_hinv fuel : forall st st', HInv st -> process fuel st = Ok st' -> HInv st'.
+Proof.
+  induction fuel as [|f IH]; intros st st' HI H; simpl in H; [discriminate|].
+  destruct (heap st) as [|h rest] eqn:Hh.
+  - injection H as <-. exact HI.
+  - destruct (Qleb (h_time h) (clock st)).
+    + destruct (proc_event (set_heap st rest) h) as [st1|e] eqn:E; [|discriminate].
+      eapply IH; [|exact H]. eapply proc_event_hinv; eauto.
+    + injection H as <-. exact HI.
+Qed.
+
+Lemma advance_hinv st d st' : HInv st -> advance st d = Ok st' -> HInv st'.
+Proof. intros HI H. apply advance_ok in H as (_ & _ & ->). exact HI. Qed.
+
+Lemma schedule_hinv st t dt st' : HInv st -> schedule st t dt = Ok st' -> HInv st'.
+Proof.
+  unfold Sim.schedule, bind. intro HI. destruct (advance st dt) as [st1|] eqn:E1; [|discriminate].
+  destruct (process_now st1) as [st2|] eqn:E2; [|discriminate].
+  intro H. injection H as <-. apply HInv_push. eapply process_hinv; [|exact E2]. eapply advance_hinv; eauto.
+Qed.
+
+Lemma stop_or_pause_hinv st t s dt st' : HInv st -> stop_or_pause st t s dt = Ok st' -> HInv st'.
+Proof.
+  unfold Sim.stop_or_pause, bind. intro HI. destruct (advance st dt) as [st1|] eqn:E1; [|discriminate].
+  match goal with |- match process_now ?x with _ => _ end = _ -> _ => set (st2 := x) end.
+  assert (H2 : HInv st2).
+  { unfold st2, advance_to. apply (HInv_push st1 t EvStop). eapply advance_hinv; eauto. }
+  destruct (process_now st2) as [st3|] eqn:E3; [|discriminate].
+  match goal with |- match process_now ?x with _ => _ end = _ -> _ => set (st4 := x) end.
+  assert (H4 : HInv st4).
+  { unfold st4, advance_to. apply (HInv_push st3 t (EvComplete s)). eapply process_hinv; eauto. }
+  destruct (process_now st4) as [st5|] eqn:E5; [|discriminate].
+  intro H. injection H as <-. apply (process_hinv _ _ _ H4) in E5. exact E5.
+Qed.
+
+Lemma HInv_set_status st t s : HInv st -> HInv (set_status st t s).
+Proof. unfold set_status. destruct (nth_error (trials st) t); auto. Qed.
+Lemma HInv_set_config st t c : HInv st -> HInv (set_config st t c).
+Proof. unfold set_config. destruct (nth_error (trials st) t); auto. Qed.
+
+Lemma step_hinv st o st' out : HInv st -> step st o = Ok (st', out) -> HInv st'.
+Proof.
+  intro HI. destruct o as [c dt|t newc dt|t lvl dt|t dt|ids dt| |]; cbn [Sim.step]; unfold bind.
+  - destruct (Sim.schedule S_ tbl draw st (length (trials st)) dt) as [st1|] eqn:E; [|discriminate].
+    intro H. injection H as <- _. eapply schedule_hinv in E; eauto.
+  - destruct (nth_error (trials st) t) as [tr|]; [|discriminate].
+    destruct (t_status tr) as [[]|]; try discriminate.
+    destruct (Sim.schedule S_ tbl draw _ t dt) as [st1|] eqn:E; [|discriminate].
+    intro H. injection H as <- _. apply HInv_set_status.
+    eapply schedule_hinv; [|exact E]. destruct newc; [apply HInv_set_config|]; exact HI.
+  - destruct (negb (Nat.ltb t (length (trials st)))); [discriminate|].
+    destruct (Sim.stop_or_pause S_ tbl draw _ t Paused dt) as [st1|] eqn:E; [|discriminate].
+    intro H. injection H as <- _.
+    apply stop_or_pause_hinv in E; [|apply HInv_set_status; exact HI]. destruct lvl; exact E.
+  - destruct (Sim.stop_or_pause S_ tbl draw st t Stopped dt) as [st1|] eqn:E; [|discriminate].
+    intro H. injection H as <- _. eapply stop_or_pause_hinv; eauto.
+  - destruct (advance st dt) as [st1|] eqn:E1; [|discriminate].
+    destruct (Sim.process_now S_ tbl draw st1) as [st2|] eqn:E2; [|discriminate].
+    destruct (collect ids (nextres st2) []) as [rs nr].
+    destruct (statuses (trials (set_nextres st2 [])) ids); [|discriminate].
+    intro H. injection H as <- _.
+    assert (H2 : HInv st2). { eapply process_hinv; [|exact E2]. eapply advance_hinv; eauto. }
+    exact H2.
+  - destruct (Sim.process_now S_ tbl draw st) as [st1|] eqn:E; [|discriminate].
+    intro H. injection H as <- _. eapply process_hinv; eauto.
+  - destruct (advance st (sleep_time S_)) as [st1|] eqn:E; [|discriminate].
+    intro H. injection H as <- _. eapply advance_hinv; eauto.
+Qed.
+
+Lemma HInv_init : HInv init_state.
+Proof. split; simpl; [constructor|intros h []]. Qed.
+
+Lemma reach_hinv st0 st : HInv st0 -> reach st0 st -> HInv st.
+Proof. intros H0 Hr. induction Hr; [exact H0|]. eapply step_hinv; eauto. Qed.
+
+(* every state a call sequence passes through (after each successful call) *)
+Lemma run_ops_state_reach ops st pre st1 o1 rest :
+  run_ops st ops = pre ++ Ok (st1, o1) :: rest -> reach st st1.
+Proof.
+  intro H. apply run_ops_reach in H as (st0 & o & Hr & Hs). econstructor; eauto.
+Qed.
+
+(* ======================================================================== *)
+(*  6. the fuel of the event loop always suffices                            *)
+(* ======================================================================== *)
+Notation mu := (mu tbl).
+Notation weight := (weight tbl).
+Notation max_curve := (max_curve tbl).
+
+Lemma mu_insert x l : mu (insert x l) = (weight x + mu l)%nat.
+Proof.
+  induction l as [|y l IH]; simpl; [reflexivity|]. destruct (key_ltb x y); simpl; [reflexivity|].
+  rewrite IH. lia.
+Qed.
+Lemma mu_filter f l : (mu (filter f l) <= mu l)%nat.
+Proof. induction l as [|y l IH]; simpl; [lia|]. destruct (f y); simpl; lia. Qed.
+
+Lemma mu_push_results rs : forall st t run idx te tf,
+  mu (heap (fst (push_results S_ st t run idx te tf rs))) = (mu (heap st) + length rs)%nat.
+Proof.
+  induction rs as [|r rs IH]; intros; simpl; [lia|]. rewrite IH. simpl. rewrite mu_insert. simpl. lia.
+Qed.
+
+Lemma inner_fold_ge per_seed : forall m,
+  (m <= fold_right (fun (cv : curve) m' => Nat.max (length cv) m') m per_seed)%nat /\
+  forall cv, In cv per_seed -> (length cv <= fold_right (fun (cv : curve) m' => Nat.max (length cv) m') m per_seed)%nat.
+Proof.
+  induction per_seed as [|x l IH]; intro m; simpl; [split; [lia|intros cv []]|].
+  destruct (IH m) as [H1 H2]. split; [lia|]. intros cv [<-|Hin]; [lia|]. apply H2 in Hin. lia.
+Qed.
+
+Lemma max_curve_ge_gen (tb : table) per_seed cv :
+  In per_seed tb -> In cv per_seed -> (length cv <= Sim.max_curve tb)%nat.
+Proof.
+  unfold Sim.max_curve. induction tb as [|x l IH]; intros H1 H2; [contradiction|]. simpl.
+  destruct H1 as [->|H1].
+  - apply (proj2 (inner_fold_ge per_seed _)). exact H2.
+  - eapply Nat.le_trans; [apply IH; assumption|]. apply (proj1 (inner_fold_ge x _)).
+Qed.
+Lemma max_curve_ge per_seed cv : In per_seed tbl -> In cv per_seed -> (length cv <= max_curve)%nat.
+Proof. apply max_curve_ge_gen. Qed.
+
+Lemma curve_of_le c seed : (length (curve_of c seed) <= max_curve)%nat.
+Proof.
+  unfold curve_of. destruct (nth_in_or_default (c_idx c) tbl []) as [H1|H1].
+  - destruct (nth_in_or_default seed (nth (c_idx c) tbl []) []) as [H2|H2].
+    + eapply max_curve_ge; eauto.
+    + rewrite H2. simpl. lia.
+  - rewrite H1. destruct seed; simpl; lia.
+Qed.
+
+Lemma job_results_length c seed rp rs : job_results S_ tbl c seed rp = Ok rs -> (length rs <= max_curve)%nat.
+Proof.
+  intro H. apply job_results_spec in H as [_ H]. apply repaired_fields in H as (_ & _ & ->).
+  unfold raw_job. rewrite map_length, with_levels_length, skipn_length. unfold limited. rewrite firstn_length.
+  pose proof (curve_of_le c seed). lia.
+Qed.
+
+Lemma job_results_no_fuel c seed rp : job_results S_ tbl c seed rp <> Err EFuel.
+Proof.
+  unfold job_results, all_results.
+  destruct (match c_maxres c with Some m => Nat.ltb m 1 | None => false end); [discriminate|].
+  destruct (negb (Nat.ltb seed (num_seeds tbl))); [discriminate|].
+  destruct (nth_error tbl (c_idx c)); [|discriminate].
+  destruct (nth_error l seed); [|discriminate].
+  unfold repair. destruct (resume_filter S_ rp _); discriminate.
+Qed.
+
+Lemma proc_event_mu st rest h :
+  match proc_event (set_heap st rest) h with
+  | Ok st' => (mu (heap st') < weight h + mu rest)%nat
+  | Err e => e <> EFuel
+  end.
+Proof.
+  unfold Sim.proc_event, Sim.weight. destruct (h_ev h) as [|s| |run idx r].
+  - unfold Sim.proc_start. simpl trials. destruct (nth_error (trials st) (h_trial h)) as [tr|]; [|discriminate].
+    set (p := match fixed_seed S_ with
+              | Some s => (s, set_heap st rest)
+              | None => match lookup (h_trial h) (seeds (set_heap st rest)) with
+                        | Some s => (s, set_heap st rest)
+                        | None => (draw (length (runs (set_heap st rest))),
+                                   set_seeds (set_heap st rest) (seeds (set_heap st rest) ++ [(h_trial h, draw (length (runs (set_heap st rest))))]))
+                        end
+              end).
+    assert (Hp : heap (snd p) = rest).
+    { unfold p. destruct (fixed_seed S_); [reflexivity|]. destruct (lookup _ _); reflexivity. }
+    destruct p as [seed st1]. simpl in Hp.
+    destruct (job_results S_ tbl (t_cfg tr) seed (lookup (h_trial h) (paused_at st1))) as [rs|e] eqn:Ej.
+    + pose proof (mu_push_results rs st1 (h_trial h) (length (runs st1)) 0%nat (h_time h) (h_time h)) as Hm.
+      destruct (push_results S_ st1 (h_trial h) (length (runs st1)) 0 (h_time h) (h_time h) rs) as [st2 tf].
+      simpl in Hm. simpl. rewrite mu_insert, Hm, Hp. simpl. apply job_results_length in Ej. lia.
+    + intro E. subst e. eapply job_results_no_fuel; eauto.
+  - unfold proc_complete. simpl. destruct (nth_error (trials st) (h_trial h)); [simpl; lia|discriminate].
+  - simpl. pose proof (mu_filter (fun e => negb (Nat.eqb (h_trial e) (h_trial h))) rest).
+    unfold remove_events. lia.
+  - unfold proc_result. simpl. destruct (nth_error (trials st) (h_trial h)) as [tr|]; [|discriminate].
+    destruct (t_isres tr); simpl; lia.
+Qed.
+
+Lemma process_enough fuel : forall st, (mu (heap st) < fuel)%nat -> process fuel st <> Err EFuel.
+Proof.
+  induction fuel as [|f IH]; intros st Hlt; [lia|]. simpl.
+  destruct (heap st) as [|h rest] eqn:Hh; [discriminate|].
+  destruct (Qleb (h_time h) (clock st)); [|discriminate].
+  pose proof (proc_event_mu st rest h) as Hm.
+  destruct (proc_event (set_heap st rest) h) as [st1|e].
+  - apply IH. simpl in Hlt. lia.
+  - intro E. injection E as ->. apply Hm. reflexivity.
+Qed.
+
+Lemma process_now_enough st : process_now st <> Err EFuel.
+Proof. apply process_enough. lia. Qed.
+
+(* ======================================================================== *)
+(*  7. the event loop pops the reports of a job run in order                 *)
+(* ======================================================================== *)
+Section InOrder.
+Hypothesis eps_nonneg : 0 <= eps S_.
+
+Definition is_res (h : hentry) (k i : nat) : Prop := exists r, h_ev h = EvResult k i r.
+
+(* queued reports of one run: a smaller index has a smaller key; an index occurs once *)
+Definition Ord (hp : list hentry) : Prop :=
+  forall h1 h2 k i1 i2, In h1 hp -> In h2 hp -> is_res h1 k i1 -> is_res h2 k i2 ->
+    ((i1 < i2)%nat -> key_lt h1 h2) /\ (i1 = i2 -> h1 = h2).
+
+Lemma Ord_sub hp hp' : Ord hp -> (forall h, In h hp' -> In h hp) -> Ord hp'.
+Proof. intros H Hs h1 h2 k i1 i2 A B. apply H; apply Hs; assumption. Qed.
+
+Lemma Ord_insert_other x hp : Ord hp -> (forall k i, ~ is_res x k i) -> Ord (insert x hp).
+Proof.
+  intros H Hx h1 h2 k i1 i2 A B C D.
+  apply In_insert in A as [->|A]; [exfalso; eapply Hx; eauto|].
+  apply In_insert in B as [->|B]; [exfalso; eapply Hx; eauto|].
+  eapply H; eauto.
+Qed.
+
+Lemma repaired_le prev l l' : repaired prev l l' ->
+  forall j1 j2 a b, (j1 <= j2)%nat -> nth_error l' j1 = Some a -> nth_error l' j2 = Some b ->
+    res_elapsed a <= res_elapsed b.
+Proof.
+  intros HR j1 j2. revert j1. induction j2 as [|j2 IH]; intros j1 a b Hle Ha Hb.
+  - assert (j1 = 0%nat) by lia. subst. rewrite Ha in Hb. injection Hb as <-. lra.
+  - destruct (Nat.eq_dec j1 (S j2)) as [->|Hne].
+    + rewrite Ha in Hb. injection Hb as <-. lra.
+    + assert (Hc : exists c, nth_error l' j2 = Some c).
+      { destruct (nth_error l' j2) as [c|] eqn:E; [eauto|].
+        apply nth_error_None in E. assert (nth_error l' (S j2) = None) by (apply nth_error_None; lia). congruence. }
+      destruct Hc as [c Hc]. pose proof (IH j1 a c ltac:(lia) Ha Hc).
+      pose proof (repaired_step _ _ _ HR j2 c b Hc Hb). lra.
+Qed.
+
+(* exact shape of the entries pushed by the loop of _process_start_event *)
+Lemma push_results_entries rs : forall st t run idx te tf h,
+  In h (heap (fst (push_results S_ st t run idx te tf rs))) ->
+  In h (heap st) \/
+  exists j r, nth_error rs j = Some r /\
+              h = mkH (qadd (qadd te (res_elapsed r)) (d_result S_)) (added st + j) t (EvResult run (idx + j) r).
+Proof.
+  induction rs as [|r rs IH]; intros st t run idx te tf h H; simpl in H; [left; exact H|].
+  apply IH in H as [H|(j & r' & Hj & ->)].
+  - simpl in H. apply In_insert in H as [->|H]; [|left; exact H].
+    right. exists 0%nat, r. simpl. rewrite !Nat.add_0_r. split; reflexivity.
+  - right. exists (S j), r'. simpl. split; [exact Hj|]. f_equal; [lia|]. f_equal. lia.
+Qed.
+
+Lemma proc_start_ord st t te st' :
+  Inv st -> Ord (heap st) -> proc_start st t te = Ok st' -> Ord (heap st').
+Proof.
+  intros (H1 & _ & _) HO. unfold Sim.proc_start.
+  destruct (nth_error (trials st) t) as [tr|]; [|discriminate].
+  set (p := match fixed_seed S_ with
+            | Some s => (s, st)
+            | None => match lookup t (seeds st) with
+                      | Some s => (s, st)
+                      | None => (draw (length (runs st)), set_seeds st (seeds st ++ [(t, draw (length (runs st)))]))
+                      end
+            end).
+  assert (Hp : heap (snd p) = heap st /\ runs (snd p) = runs st).
+  { unfold p. destruct (fixed_seed S_); [auto|]. destruct (lookup t (seeds st)); auto. }
+  destruct p as [seed st1]. simpl in Hp. destruct Hp as [Ph Pr].
+  destruct (job_results S_ tbl (t_cfg tr) seed (lookup t (paused_at st1))) as [rs|e] eqn:Ej; [|discriminate].
+  apply job_results_spec in Ej as [_ Hrep].
+  pose proof (push_results_entries rs st1 t (length (runs st1)) 0%nat te te) as Hh.
+  destruct (push_results S_ st1 t (length (runs st1)) 0 te te rs) as [st2 tf]. simpl in Hh.
+  intro H. injection H as <-. simpl.
+  apply Ord_insert_other; [|intros k i [r Hr]; simpl in Hr; discriminate].
+  (* tags of old entries are below the new run tag *)
+  assert (Hold : forall h k i, In h (heap st) -> is_res h k i -> (k < length (runs st))%nat).
+  { intros h k i Hin [r Hr]. destruct (H1 h k i r Hin Hr) as (run & Hk & _). apply nth_error_Some. congruence. }
+  intros h1 h2 k i1 i2 A B C D.
+  apply Hh in A. apply Hh in B. rewrite Ph in A, B. rewrite Pr in A, B.
+  destruct A as [A|(j1 & r1 & Hj1 & ->)]; destruct B as [B|(j2 & r2 & Hj2 & ->)].
+  - eapply HO; eauto.
+  - exfalso. destruct D as [r D]. simpl in D. injection D as <- _ _. pose proof (Hold _ _ _ A C). lia.
+  - exfalso. destruct C as [r C]. simpl in C. injection C as <- _ _. pose proof (Hold _ _ _ B D). lia.
+  - destruct C as [r C]. destruct D as [r' D]. simpl in C, D. injection C as _ <- _. injection D as _ <- _.
+    simpl. split.
+    + intro Hlt. assert (Hjj : (j1 < j2)%nat) by lia.
+      pose proof (repaired_le _ _ _ Hrep j1 j2 r1 r2 ltac:(lia) Hj1 Hj2) as Hle.
+      unfold key_lt. simpl. rewrite !qadd_eq.
+      destruct (Qlt_le_dec (res_elapsed r1) (res_elapsed r2)) as [Hl|Hg].
+      * left. lra.
+      * right. split; [|lia]. assert (res_elapsed r1 == res_elapsed r2) by lra. lra.
+    + intro Heq. assert (j1 = j2) by lia. subst j2. rewrite Hj1 in Hj2. injection Hj2 as <-. reflexivity.
+Qed.
+
+Lemma proc_event_ord st rest h st' :
+  Inv st -> Ord (heap st) -> heap st = h :: rest -> proc_event (set_heap st rest) h = Ok st' -> Ord (heap st').
+Proof.
+  intros HI HO Hh.
+  assert (HO' : Ord rest). { eapply Ord_sub; [exact HO|]. intros x Hx. rewrite Hh. right. exact Hx. }
+  assert (HI' : Inv (set_heap st rest)).
+  { apply Inv_heap_sub; [exact HI|]. intros x Hx. rewrite Hh. right. exact Hx. }
+  unfold Sim.proc_event. destruct (h_ev h) as [|s| |run idx r].
+  - apply proc_start_ord; [exact HI'|exact HO'].
+  - unfold proc_complete. simpl. destruct (nth_error (trials st) (h_trial h)); [|discriminate].
+    intro H. injection H as <-. exact HO'.
+  - intro H. injection H as <-. simpl. eapply Ord_sub; [exact HO'|].
+    intros x Hx. apply filter_In in Hx as [Hx _]. exact Hx.
+  - unfold proc_result. simpl. destruct (nth_error (trials st) (h_trial h)) as [tr|]; [|discriminate].
+    destruct (t_isres tr); intro H; injection H as <-; exact HO'.
+Qed.
+
+Definition IO (st : state) : Prop := Inv st /\ Ord (heap st).
+
+Lemma process_io fuel : forall st st', IO st -> process fuel st = Ok st' -> IO st'.
+Proof.
+  induction fuel as [|f IH]; intros st st' HIO H; simpl in H; [discriminate|].
+  destruct (heap st) as [|h rest] eqn:Hh.
+  - injection H as <-. exact HIO.
+  - destruct (Qleb (h_time h) (clock st)).
+    + destruct (proc_event (set_heap st rest) h) as [st1|e] eqn:E; [|discriminate].
+      destruct HIO as [HI HO].
+      eapply IH; [|exact H]. split; [eapply proc_event_inv; eauto | eapply proc_event_ord; eauto].
+    + injection H as <-. exact HIO.
+Qed.
+
+Lemma IO_push st t ev time : IO st -> (forall k i r, ev <> EvResult k i r) -> IO (push st t ev time).
+Proof.
+  intros [HI HO] Hev. split; [apply Inv_push; assumption|]. simpl.
+  apply Ord_insert_other; [exact HO|]. intros k i [r Hr]. simpl in Hr. eapply Hev; eauto.
+Qed.
+
+Lemma IO_fields st st' : IO st -> heap st' = heap st -> nextres st' = nextres st ->
+  runs st' = runs st -> seeds st' = seeds st -> IO st'.
+Proof. unfold IO, Inv. intros [HI HO] -> -> -> ->. split; assumption. Qed.
+
+Lemma step_io st o st' out : IO st -> step st o = Ok (st', out) -> IO st'.
+Proof.
+  intros HIO Hs. destruct HIO as [HI HO].
+  pose proof (step_inv _ _ _ _ HI Hs) as [HI' _]. split; [exact HI'|].
+  revert Hs. destruct o as [c dt|t newc dt|t lvl dt|t dt|ids dt| |]; cbn [Sim.step]; unfold bind.
+  - unfold Sim.schedule, bind. destruct (advance st dt) as [st1|] eqn:E1; [|discriminate].
+    destruct (Sim.process_now S_ tbl draw st1) as [st2|] eqn:E2; [|discriminate].
+    intro H. injection H as <- _. simpl.
+    apply advance_ok in E1 as (_ & _ & ->).
+    apply (process_io _ _ _ (conj HI HO : IO (set_clock st _))) in E2 as [_ HO2].
+    apply Ord_insert_other; [exact HO2|]. intros k i [r Hr]. discriminate.
+  - destruct (nth_error (trials st) t) as [tr|]; [|discriminate].
+    destruct (t_status tr) as [[]|]; try discriminate.
+    unfold Sim.schedule, bind.
+    match goal with |- match match advance ?s0 dt with _ => _ end with _ => _ end = _ -> _ => set (st0 := s0) end.
+    assert (H0 : IO st0).
+    { unfold st0. destruct newc as [c|]; [|split; assumption].
+      unfold set_config. destruct (nth_error (trials st) t); split; assumption. }
+    destruct (advance st0 dt) as [st1|] eqn:E1; [|discriminate].
+    destruct (Sim.process_now S_ tbl draw st1) as [st2|] eqn:E2; [|discriminate].
+    intro H. injection H as <- _.
+    apply advance_ok in E1 as (_ & _ & ->).
+    apply (process_io _ _ _ (H0 : IO (set_clock st0 _))) in E2 as [_ HO2].
+    unfold set_status. simpl.
+    match goal with |- Ord (heap (match ?x with _ => _ end)) => destruct x end; simpl;
+      (apply Ord_insert_other; [exact HO2|]; intros k i [r Hr]; discriminate).
+  - destruct (negb (Nat.ltb t (length (trials st)))); [discriminate|].
+    unfold Sim.stop_or_pause, bind.
+    match goal with |- match match advance ?s0 dt with _ => _ end with _ => _ end = _ -> _ => set (st0 := s0) end.
+    assert (H0 : IO st0).
+    { unfold st0, set_status. destruct (nth_error (trials st) t); split; assumption. }
+    destruct (advance st0 dt) as [st1|] eqn:E1; [|discriminate].
+    apply advance_ok in E1 as (_ & _ & ->).
+    match goal with |- match match Sim.process_now _ _ _ ?x with _ => _ end with _ => _ end = _ -> _ => set (st2 := x) end.
+    assert (H2 : IO st2).
+    { unfold st2, advance_to.
+      match goal with |- IO (set_clock ?x _) => apply (IO_fields x); [|reflexivity..] end.
+      apply IO_push; [exact H0|discriminate]. }
+    destruct (Sim.process_now S_ tbl draw st2) as [st3|] eqn:E3; [|discriminate].
+    apply (process_io _ _ _ H2) in E3.
+    match goal with |- match match Sim.process_now _ _ _ ?x with _ => _ end with _ => _ end = _ -> _ => set (st4 := x) end.
+    assert (H4 : IO st4).
+    { unfold st4, advance_to.
+      match goal with |- IO (set_clock ?x _) => apply (IO_fields x); [|reflexivity..] end.
+      apply IO_push; [exact E3|discriminate]. }
+    destruct (Sim.process_now S_ tbl draw st4) as [st5|] eqn:E5; [|discriminate].
+    apply (process_io _ _ _ H4) in E5 as [_ HO5].
+    intro H. injection H as <- _. destruct lvl; simpl; exact HO5.
+  - unfold Sim.stop_or_pause, bind.
+    destruct (advance st dt) as [st1|] eqn:E1; [|discriminate].
+    apply advance_ok in E1 as (_ & _ & ->).
+    match goal with |- match match Sim.process_now _ _ _ ?x with _ => _ end with _ => _ end = _ -> _ => set (st2 := x) end.
+    assert (H2 : IO st2).
+    { unfold st2, advance_to.
+      match goal with |- IO (set_clock ?x _) => apply (IO_fields x); [|reflexivity..] end.
+      apply IO_push; [split; assumption|discriminate]. }
+    destruct (Sim.process_now S_ tbl draw st2) as [st3|] eqn:E3; [|discriminate].
+    apply (process_io _ _ _ H2) in E3.
+    match goal with |- match match Sim.process_now _ _ _ ?x with _ => _ end with _ => _ end = _ -> _ => set (st4 := x) end.
+    assert (H4 : IO st4).
+    { unfold st4, advance_to.
+      match goal with |- IO (set_clock ?x _) => apply (IO_fields x); [|reflexivity..] end.
+      apply IO_push; [exact E3|discriminate]. }
+    destruct (Sim.process_now S_ tbl draw st4) as [st5|] eqn:E5; [|discriminate].
+    apply (process_io _ _ _ H4) in E5 as [_ HO5].
+    intro H. injection H as <- _. simpl. exact HO5.
+  - destruct (advance st dt) as [st1|] eqn:E1; [|discriminate].
+    apply advance_ok in E1 as (_ & _ & ->).
+    destruct (Sim.process_now S_ tbl draw (set_clock st _)) as [st2|] eqn:E2; [|discriminate].
+    apply (process_io _ _ _ (conj HI HO : IO (set_clock st _))) in E2 as [_ HO2].
+    destruct (collect ids (nextres st2) []) as [rs nr].
+    destruct (statuses (trials (set_nextres st2 [])) ids); [|discriminate].
+    intro H. injection H as <- _. simpl. exact HO2.
+  - destruct (Sim.process_now S_ tbl draw st) as [st1|] eqn:E; [|discriminate].
+    apply (process_io _ _ _ (conj HI HO)) in E as [_ HO1].
+    intro H. injection H as <- _. exact HO1.
+  - destruct (advance st (sleep_time S_)) as [st1|] eqn:E; [|discriminate].
+    apply advance_ok in E as (_ & _ & ->). intro H. injection H as <- _. exact HO.
+Qed.
+
+Lemma IO_init : IO init_state.
+Proof. split; [exact Inv_init|]. intros h1 h2 k i1 i2 []. Qed.
+
+Lemma reach_io st0 st : IO st0 -> reach st0 st -> IO st.
+Proof. intros H0 Hr. induction Hr; [exact H0|]. eapply step_io; eauto. Qed.
+
+(* the next event popped, if it is a report of run k with index i, is the report of run k with
+   the smallest index still queued *)
+Lemma pop_in_order st h rest : IO st -> HInv st -> heap st = h :: rest ->
+  forall k i, is_res h k i -> forall h' i', In h' rest -> is_res h' k i' -> (i < i')%nat.
+Proof.
+  intros [_ HO] [Hs _] Hh k i Hr h' i' Hin Hr'.
+  rewrite Hh in HO, Hs. pose proof (sorted_head_min h rest Hs h' Hin) as Hlt.
+  destruct (Nat.lt_trichotomy i i') as [H|[H|H]]; [exact H| |].
+  - exfalso. destruct (HO h h' k i i' (or_introl eq_refl) (or_intror Hin) Hr Hr') as [_ He].
+    specialize (He H). subst h'. eapply key_lt_irrefl; eauto.
+  - exfalso. destruct (HO h' h k i' i (or_intror Hin) (or_introl eq_refl) Hr' Hr) as [Hk _].
+    specialize (Hk H). eapply key_lt_irrefl. eapply key_lt_trans; eauto.
+Qed.
+End InOrder.
 
 End Proofs.
